@@ -106,11 +106,22 @@ class Interp(object):
         self.encoded = {}           # qualified name -> dict(file, lines, sha256)
         self.loop_bound = loop_bound
         self.depth_bound = depth_bound
+        self.on_bound = "raise"      # or "cut": paths needing more unwinding are cut and counted
+        self.cuts = 0
+        self.native_calls = None     # set() of qualified names of natively executed callees when enabled
         self.exc_stack = []
         from . import models as M
+        from . import rope as _rope
         M.install(self)
+        _rope.ITER_INTERP[0] = self
 
     # ------------------------------------------------------------------ utils
+    def bound_hit(self, msg):
+        if self.on_bound == "cut":
+            self.cuts += 1
+            raise PathAbort()
+        raise BoundExceeded(msg)
+
     def override_global(self, module, name, value):
         self.global_overrides.setdefault(id(module.__dict__), {})[name] = value
 
@@ -181,6 +192,9 @@ class Interp(object):
         # known not to inspect their operands
         if not self.tolerates_sym(f, args):
             self.require_concrete(f, args, kwargs)
+        if self.native_calls is not None:
+            self.native_calls.add("%s.%s" % (getattr(f, "__module__", None) or type(getattr(f, "__self__", None)).__name__,
+                                             getattr(f, "__qualname__", None) or getattr(f, "__name__", repr(f))))
         return f(*args, **kwargs)
 
     TOLERANT_METHODS = {
@@ -430,7 +444,7 @@ class Interp(object):
             while self.truth(self.eval(s.test, env)):
                 n += 1
                 if n > self.loop_bound:
-                    raise BoundExceeded("while loop at line %d needs more than %d iterations" % (s.lineno, self.loop_bound))
+                    self.bound_hit("while loop at line %d needs more than %d iterations" % (s.lineno, self.loop_bound))
                 st = yield from self.exec_block(s.body, env)
                 if st is not None:
                     if st[0] == "break":
@@ -448,7 +462,7 @@ class Interp(object):
             for item in it:
                 n += 1
                 if n > self.loop_bound:
-                    raise BoundExceeded("for loop at line %d needs more than %d iterations" % (s.lineno, self.loop_bound))
+                    self.bound_hit("for loop at line %d needs more than %d iterations" % (s.lineno, self.loop_bound))
                 self.assign(s.target, item, env)
                 st = yield from self.exec_block(s.body, env)
                 if st is not None:
@@ -847,6 +861,10 @@ class Interp(object):
             return V.wrap(z3.Contains(V.term(container), V.term(item)))
         if isinstance(item, Sym) or self.has_sym(item):
             if isinstance(container, (set, frozenset, dict, tuple, list)) or type(container) is type({}.keys()):
+                iv = self._int_view(item, container)
+                if iv is not None:
+                    t, ints = iv
+                    return V.wrap(_intervals(t, ints))
                 disj = []
                 for x in container:
                     r = self.deep_eq(item, x)
@@ -918,7 +936,7 @@ class Interp(object):
         for item in it:
             n += 1
             if n > self.loop_bound:
-                raise BoundExceeded("comprehension at line %d needs more than %d iterations" % (g.iter.lineno, self.loop_bound))
+                self.bound_hit("comprehension at line %d needs more than %d iterations" % (g.iter.lineno, self.loop_bound))
             self.assign(g.target, item, env)
             if all(self.truth(self.eval(c, env)) for c in g.ifs):
                 yield from self._comp(gens, env, i + 1)
@@ -937,7 +955,7 @@ class Interp(object):
             for item in it:
                 k += 1
                 if k > interp.loop_bound:
-                    raise BoundExceeded("generator expression at line %d needs more than %d iterations" % (n.lineno, interp.loop_bound))
+                    interp.bound_hit("generator expression at line %d needs more than %d iterations" % (n.lineno, interp.loop_bound))
                 interp.assign(first.target, item, cenv)
                 if all(interp.truth(interp.eval(c, cenv)) for c in first.ifs):
                     for e in interp._comp(gens, cenv, 1):
@@ -1035,6 +1053,62 @@ class Interp(object):
             raise KeyError(key)
         return keys[i]
 
+    def _int_view(self, key, keys):
+        """(Int term of key, list of int images of `keys`) when the key is a
+        symbolic int or a symbolic single byte and all keys are ints / single
+        bytes; None otherwise"""
+        from .rope import Rope, byte_term
+        keys = list(keys)
+        if not keys:
+            return None
+        if isinstance(key, SymInt) and all(type(k) is int for k in keys):
+            return key.e, keys
+        if isinstance(key, Rope) and all(type(k) is bytes and len(k) == 1 for k in keys):
+            n = z3.simplify(key.length_term())
+            if z3.is_int_value(n) and n.as_long() == 1:
+                return byte_term(key), [k[0] for k in keys]
+        return None
+
+    def dict_lookup(self, d, key):
+        """d[key] for a concrete dict and a symbolic key.  When all values are
+        ints (or single bytes) the result is one merged ite-term; otherwise the
+        path forks over the feasible keys."""
+        vals = list(d.values())
+        iv = self._int_view(key, d.keys())
+        if iv is not None and vals and (all(type(v) is int for v in vals) or all(type(v) is bytes and len(v) == 1 for v in vals)):
+            t, ints = iv
+            if ctx().branch(z3.Not(_intervals(t, ints)), "dict-miss"):
+                raise KeyError(key)
+            as_int = [v if type(v) is int else v[0] for v in vals]
+            deltas = set(v - k for k, v in zip(ints, as_int))
+            if len(deltas) == 1:
+                e = t + deltas.pop()
+            else:
+                e = z3.IntVal(as_int[-1])
+                for k, v in zip(reversed(ints[:-1]), reversed(as_int[:-1])):
+                    e = z3.If(t == k, z3.IntVal(v), e)
+            if type(vals[0]) is int:
+                return V.wrap(e)
+            from .rope import Rope, Field
+            return Rope((Field(1, z3.simplify(e)),)).maybe_concrete()
+        if vals and (all(type(v) is int for v in vals) or all(type(v) is bytes and len(v) == 1 for v in vals)):
+            keys = list(d.keys())
+            conds = []
+            for k in keys:
+                r = self.deep_eq(key, k)
+                conds.append(z3.BoolVal(r) if isinstance(r, bool) else V.truth_term(r))
+            if ctx().branch(z3.Not(z3.Or(*conds)), "dict-miss"):
+                raise KeyError(key)
+            as_int = [v if type(v) is int else v[0] for v in vals]
+            e = z3.IntVal(as_int[-1])
+            for cnd, v in zip(reversed(conds[:-1]), reversed(as_int[:-1])):
+                e = z3.If(cnd, z3.IntVal(v), e)
+            if type(vals[0]) is int:
+                return V.wrap(e)
+            from .rope import Rope, Field
+            return Rope((Field(1, z3.simplify(e)),)).maybe_concrete()
+        return d[self.dict_key(d, key)]
+
     def getitem(self, obj, key):
         h = getattr(obj, "sym_getitem", None)
         if h is not None:
@@ -1046,7 +1120,7 @@ class Interp(object):
             raise TypeError("%r object is not subscriptable" % obj.pytype.__name__)
         if isinstance(key, Sym):
             if isinstance(obj, dict):
-                return obj[self.dict_key(obj, key)]
+                return self.dict_lookup(obj, key)
             if isinstance(obj, (tuple, list)) and isinstance(key, SymInt):
                 n = len(obj)
                 conds = [key.e == i for i in range(n)] + [key.e == i - n for i in range(n)]
@@ -1082,6 +1156,20 @@ class Interp(object):
                 return
             raise Unsupported("store with symbolic key into %s" % type(obj).__name__)
         obj[key] = v
+
+
+def _intervals(t, ints):
+    """t in ints, as a disjunction of intervals"""
+    xs = sorted(set(ints))
+    parts = []
+    i = 0
+    while i < len(xs):
+        j = i
+        while j + 1 < len(xs) and xs[j + 1] == xs[j] + 1:
+            j += 1
+        parts.append(t == xs[i] if i == j else z3.And(t >= xs[i], t <= xs[j]))
+        i = j + 1
+    return z3.Or(*parts) if len(parts) != 1 else parts[0]
 
 
 def _is_generator(node):
